@@ -212,9 +212,7 @@ pub fn disassemble(bytes: &[u8]) -> Result<Vec<DynOpcode>> {
         add_op(ops, control::Invalid::new(last_push));
         push_bytes.iter().for_each(|b| add_op(ops, control::Invalid::new(*b)));
     } else if push_size != 0 {
-        let opcode = mem::PushN::new(push_size, push_bytes.clone())
-            .map_err(|e| e.locate(last_push_start))?;
-        add_op(ops, opcode);
+        add_op(ops, control::Invalid::new(last_push));
     }
 
     Ok(opcodes)
